@@ -77,9 +77,10 @@ NAN = float("nan")
 CLASSES = ["map", "int", "float", "str", "bool", "quantity", "sel", "unit", "generic"]
 KEYS = ["a", "b", "c", "d", "root", "k1", "e"]
 LOOKUP = KEYS + ["", "zz"]
-QUNITS = {"Length": {"m": 1.0, "km": 1000.0, "cm": 0.01, "mm": 0.001},
-          "Duration": {"s": 1.0, "min": 60.0, "h": 3600.0, "day": 86400.0},
-          "Speed": {"m/s": 1.0, "km/s": 1000.0},
+# (among them alias spellings that are displayed differently from how they are written: 'mum', 'A', 'hr', 'week')
+QUNITS = {"Length": {"m": 1.0, "km": 1000.0, "cm": 0.01, "mm": 0.001, "mum": 1e-06, "A": 1e-10},
+          "Duration": {"s": 1.0, "min": 60.0, "h": 3600.0, "day": 86400.0, "hr": 3600.0, "week": 604800.0},
+          "Speed": {"m/s": 1.0, "km/s": 1000.0, "km/hr": 0.2777777777777778},
           # two DIFFERENT quantity types with the same SI signature (kg.m2/s2): a parameter declared for one of
           # them must not accept the other
           "Energy": {"J": 1.0, "kJ": 1000.0},
